@@ -321,7 +321,7 @@ def f5_witness() -> Case:
 def gen_cases(ctx: Check):
     rng = ctx.rng("gen")
     cases = []
-    cyc = ctx.pick(90, 800)
+    cyc = ctx.pick(70, 800)
     f5_on = ctx.is_known({"component": "MemoryBank", "f5": True})
     for d in configs(ctx):
         cfg = _cfg(d)
